@@ -12,6 +12,20 @@ open FMap
 def ChanTrans (a b : ChanState) : Prop :=
   a = b ∨ (a = .init ∧ b = .opened) ∨ (a = .tryopen ∧ b = .opened) ∨ (a ≠ .closed ∧ b = .closed)
 
+/-- `e` records a successful send on `id` that was given sequence `q` -/
+def Event.isSend (id : Id) (q : Nat) : Event → Bool
+  | .send1 _ c q' => c = id ∧ q' = q
+  | .send2 c q' _ => c = id ∧ q' = q
+  | _ => false
+
+/-- allowed changes of a connection end by one step; an OPEN end only admits the first disjunct
+    (the two others start from INIT / TRYOPEN) -/
+def ConnStep (e e' : ConnEnd) : Prop :=
+  e' = e ∨
+  (e.state = .init ∧ e'.state = .opened ∧ e'.client = e.client ∧ e'.cpClient = e.cpClient ∧
+    e'.cpPrefix = e.cpPrefix ∧ e'.delay = e.delay ∧ ∃ v, e'.versions = [v] ∧ isSupportedVersion e.versions v = true) ∨
+  (e.state = .tryopen ∧ e' = { e with state := .opened })
+
 /-- what must be true of the step that appended callback event `e` to the log -/
 def EvOK (s s' : ChainState) : Event → Prop
   | .recv1 p c q => ∃ ch, s.chan.get (p, c) = some ch ∧ ch.state = .opened ∧ s'.chan = s.chan ∧
@@ -26,8 +40,11 @@ def EvOK (s s' : ChainState) : Event → Prop
       (ch.ordering = .ordered → ∃ ch', s'.chan.get (p, c) = some ch' ∧ ch'.state = .closed)
   | .ack2 c q _ => s.cpV2.get c ≠ none ∧ s.commitV2.get (c, q) ≠ none ∧ s'.commitV2.get (c, q) = none
   | .timeout2 c q _ => s.cpV2.get c ≠ none ∧ s.commitV2.get (c, q) ≠ none ∧ s'.commitV2.get (c, q) = none
-  | .send2 .. => True
-  | .hs .. => True
+  | .send1 _ c q => s.nextSend.get c = some q ∧ s'.nextSend.get c = some (q + 1)
+  | .send2 c q _ => s.nextSend.get c = some q ∧ s'.nextSend.get c = some (q + 1)
+  | .hs k _ c => (k = "init" ∨ k = "try") → c = fmtChan s.nextChanSeq ∧ s'.nextChanSeq = s.nextChanSeq + 1
+  | .genClient id => (∃ t, id = fmtClient t s.nextClientSeq) ∧ s'.nextClientSeq = s.nextClientSeq + 1
+  | .genConn id => id = fmtConn s.nextConnSeq ∧ s'.nextConnSeq = s.nextConnSeq + 1
 
 /-- identifiers of clients created through the registered light-client modules -/
 def IsClientId (id : Id) : Prop :=
@@ -40,7 +57,9 @@ macro "tr_auto" : tactic =>
     | (left; rfl)
     | (simp only [FMap.get_set, FMap.get_del, ChainState.logAdd, ChainState.appWrite] at *; split <;> simp_all; done)
     | (simp only [FMap.get_set, FMap.get_del, ChainState.logAdd, ChainState.appWrite] at *; split at * <;> simp_all; done)
-    | (refine Or.inr ⟨_, by simp_all [FMap.get_set, FMap.get_del, ChainState.logAdd, ChainState.appWrite], rfl, rfl, rfl, Or.inl rfl, by simp⟩)))
+    | (refine Or.inr ⟨_, by simp_all [FMap.get_set, FMap.get_del, ChainState.logAdd, ChainState.appWrite], rfl, rfl, rfl, Or.inl rfl, by simp⟩)
+    | (refine Or.inr ⟨_, by simp_all [FMap.get_set, FMap.get_del, ChainState.logAdd, ChainState.appWrite], Or.inl rfl⟩)
+    | (left; simp_all [FMap.get_set, FMap.get_del, ChainState.logAdd, ChainState.appWrite]; done)))
 
 structure Tr (s s' : ChainState) : Prop where
   log : s'.log = s.log ∨ ∃ e, s'.log = s.log ++ [e] ∧ EvOK s s' e
@@ -67,8 +86,12 @@ structure Tr (s s' : ChainState) : Prop where
       (s'.nextAck.get (p, c) = some (n + 1) ∧ ∃ a, s'.log = s.log ++ [.ack1 p c n a]) ∨
       c = fmtChan s.nextChanSeq := by tr_auto
   nextSend : ∀ id n, s.nextSend.get id = some n →
-      s'.nextSend.get id = some n ∨ s'.nextSend.get id = some (n + 1) ∨
+      s'.nextSend.get id = some n ∨
+      (s'.nextSend.get id = some (n + 1) ∧ ∃ e, s'.log = s.log ++ [e] ∧ e.isSend id n = true) ∨
       id = fmtChan s.nextChanSeq ∨ (s.cpV2.get id = none ∧ s.creator.get id ≠ none) := by tr_auto
+  nextSendNew : ∀ id n, s.nextSend.get id = none → s'.nextSend.get id = some n →
+      n = 1 ∧ (id = fmtChan s.nextChanSeq ∨ (s.cpV2.get id = none ∧ s.creator.get id ≠ none)) ∧
+      ((∃ p, s'.chan.get (p, id) ≠ none) ∨ s'.cpV2.get id ≠ none) := by tr_auto
   -- commitments are created only by sends, at the current send counter
   commitV1New : ∀ p c q, s.commitV1.get (p, c, q) = none → s'.commitV1.get (p, c, q) ≠ none →
       s.nextSend.get c = some q ∧ s'.nextSend.get c = some (q + 1) ∧ s.chan.get (p, c) ≠ none := by tr_auto
@@ -85,23 +108,22 @@ structure Tr (s s' : ChainState) : Prop where
   -- acknowledgements are write-once
   ackV1 : ∀ k v, s.ackV1.get k = some v → s'.ackV1.get k = some v := by tr_auto
   ackV2 : ∀ k v, s.ackV2.get k = some v → s'.ackV2.get k = some v := by tr_auto
+  -- a v2 acknowledgement needs a receipt; asynchronous packets live from the receive to the ack write
+  ackV2New : ∀ k, s.ackV2.get k = none → s'.ackV2.get k ≠ none →
+      s'.receiptV2.get k ≠ none ∧
+      (s'.asyncV2.get k = none ∨ s.receiptV2.get k = none ∨ ∃ k' p, s.asyncV2.get k' = some p ∧ (p.dst, p.seq) ≠ k') := by tr_auto
+  asyncNew : ∀ k p, s.asyncV2.get k = none → s'.asyncV2.get k = some p →
+      (p.dst, p.seq) = k ∧ s.receiptV2.get k = none ∧ s'.receiptV2.get k ≠ none ∧ s'.ackV2.get k = s.ackV2.get k := by tr_auto
+  asyncOld : ∀ k p, s.asyncV2.get k = some p →
+      s'.asyncV2.get k = some p ∨
+      (s'.asyncV2.get k = none ∧ (((p.dst, p.seq) = k ∧ s.ackV2.get k = none ∧ s'.ackV2.get k ≠ none) ∨ (p.dst, p.seq) ≠ k)) ∨
+      s.receiptV2.get k = none := by tr_auto
+  -- connections
+  connOld : ∀ c e, s.conn.get c = some e → c = fmtConn s.nextConnSeq ∨ ∃ e', s'.conn.get c = some e' ∧ ConnStep e e' := by tr_auto
+  connNew : ∀ c e', s.conn.get c = none → s'.conn.get c = some e' →
+      c = fmtConn s.nextConnSeq ∧ s'.nextConnSeq = s.nextConnSeq + 1 ∧ (e'.state = .init ∨ e'.state = .tryopen) ∧
+      e'.client ≠ localhostClient ∧ (e'.state = .tryopen → ∃ v, e'.versions = [v]) := by tr_auto
 
 theorem Tr.refl (s : ChainState) : Tr s s := { log := .inl rfl }
-
-/-- an op that leaves the protocol-relevant fields alone -/
-theorem Tr.of_eq {s s' : ChainState}
-    (h1 : s'.log = s.log) (h2 : s'.chan = s.chan) (h3 : s'.nextChanSeq = s.nextChanSeq)
-    (h4 : s'.nextConnSeq = s.nextConnSeq) (h5 : s'.nextClientSeq = s.nextClientSeq)
-    (h6 : s'.receiptV1 = s.receiptV1) (h7 : s'.receiptV2 = s.receiptV2) (h8 : s'.nextRecv = s.nextRecv)
-    (h9 : s'.nextAck = s.nextAck) (h10 : s'.nextSend = s.nextSend) (h11 : s'.commitV1 = s.commitV1)
-    (h12 : s'.commitV2 = s.commitV2) (h13 : s'.cpV2 = s.cpV2) (h14 : s'.clientState = s.clientState)
-    (h15 : s'.creator.get = s.creator.get ∨ ∀ id, s'.creator.get id ≠ none → s.creator.get id ≠ none)
-    (h16 : s'.ackV1 = s.ackV1) (h17 : s'.ackV2 = s.ackV2) : Tr s s' :=
-  { log := .inl h1
-    creatorNew := by
-      intro id hn hs
-      rcases h15 with h | h
-      · rw [h] at hs; exact absurd hn hs
-      · exact absurd hn (h id hs) }
 
 end IbcVerif.Chain
